@@ -230,7 +230,7 @@ where
                 Some(b' ') | Some(b'\n') | Some(b'\t') | Some(b'\r') | Some(0x0C) | Some(b')')
                 | Some(b']') | Some(b'(') | Some(b'[') | Some(b';') | None => {
                     if scratch == b"." {
-                        return error(self, ErrorCode::InvalidSymbol);
+                        return error(self, lone_dot_error(next));
                     }
                     if next.is_none() && ends_in_partial_char(scratch) {
                         return error(self, ErrorCode::EofWhileParsingValue);
@@ -395,7 +395,7 @@ impl<'a> SliceRead<'a> {
                         // copying.
                         let borrowed = &self.slice[start..self.index];
                         if borrowed == b"." {
-                            return error(self, ErrorCode::InvalidSymbol);
+                            return error(self, lone_dot_error(next));
                         }
                         if next.is_none() && ends_in_partial_char(borrowed) {
                             return error(self, ErrorCode::EofWhileParsingValue);
@@ -404,7 +404,7 @@ impl<'a> SliceRead<'a> {
                     } else {
                         scratch.extend_from_slice(&self.slice[start..self.index]);
                         if scratch == b"." {
-                            return error(self, ErrorCode::InvalidSymbol);
+                            return error(self, lone_dot_error(next));
                         }
                         if next.is_none() && ends_in_partial_char(scratch) {
                             return error(self, ErrorCode::EofWhileParsingValue);
@@ -709,6 +709,15 @@ fn as_char<'de, 's, R: Read<'de> + ?Sized>(read: &R, value: u32) -> Result<char>
     match char::from_u32(value) {
         None => error(read, ErrorCode::InvalidUnicodeCodePoint),
         Some(c) => Ok(c),
+    }
+}
+
+/// A dot on its own is not a symbol; at the end of the input it may be the
+/// beginning of one (`..`, `...`), which makes the input incomplete.
+fn lone_dot_error(next: Option<u8>) -> ErrorCode {
+    match next {
+        Some(_) => ErrorCode::InvalidSymbol,
+        None => ErrorCode::EofWhileParsingValue,
     }
 }
 
